@@ -66,6 +66,7 @@ func (r *EntityLocal) GetOrAddFeature(featureType model.FeatureTypeType, role mo
 	if f := r.FeatureOfTypeAndRole(featureType, role); f != nil {
 		return f
 	}
+	verifYieldLT("GetOrAddFeature.miss")
 
 	r.mux.Lock()
 	defer r.mux.Unlock()
@@ -134,6 +135,7 @@ func (r *EntityLocal) AddUseCaseSupport(
 	nodeMgmt := r.device.NodeManagement()
 
 	data, err := LocalFeatureDataCopyOfType[*model.NodeManagementUseCaseDataType](nodeMgmt, model.FunctionTypeNodeManagementUseCaseData)
+	verifYieldLT("UseCase.copied")
 	if err != nil {
 		data = &model.NodeManagementUseCaseDataType{}
 	}
@@ -174,6 +176,7 @@ func (r *EntityLocal) SetUseCaseAvailability(
 	nodeMgmt := r.device.NodeManagement()
 
 	data, err := LocalFeatureDataCopyOfType[*model.NodeManagementUseCaseDataType](nodeMgmt, model.FunctionTypeNodeManagementUseCaseData)
+	verifYieldLT("UseCase.copied")
 	if err != nil {
 		return
 	}
@@ -196,6 +199,7 @@ func (r *EntityLocal) RemoveUseCaseSupport(
 	nodeMgmt := r.device.NodeManagement()
 
 	data, err := LocalFeatureDataCopyOfType[*model.NodeManagementUseCaseDataType](nodeMgmt, model.FunctionTypeNodeManagementUseCaseData)
+	verifYieldLT("UseCase.copied")
 	if err != nil {
 		return
 	}
@@ -215,6 +219,7 @@ func (r *EntityLocal) RemoveAllUseCaseSupports() {
 	nodeMgmt := r.device.NodeManagement()
 
 	data, err := LocalFeatureDataCopyOfType[*model.NodeManagementUseCaseDataType](nodeMgmt, model.FunctionTypeNodeManagementUseCaseData)
+	verifYieldLT("UseCase.copied")
 	if err != nil {
 		return
 	}
